@@ -222,6 +222,9 @@ class BasicReadAssignmentLoader:
 def construct_models_in_parallel(sample, chr_id, dump_filename, args, read_groups):
     logger.info("Processing chromosome " + chr_id)
     construct_models = not args.no_model_construction
+    # class-level caches must not outlive a chromosome of a sample (same process is reused when threads == 1)
+    GraphBasedModelConstructor.detected_known_isoforms = set()
+    GraphBasedModelConstructor.extended_transcript_ids = set()
     current_chr_record = Fasta(args.reference, indexname=args.fai_file_name)[chr_id]
     multimapped_reads = defaultdict(list)
     multimap_loader = open(dump_filename + "_multimappers_" + chr_id, "rb")
